@@ -76,3 +76,19 @@ func B5(files map[string][]byte, depB5 []string) string {
 	all := append([]string{FilesDigest(files)}, deps...)
 	return "b5:" + shake256Hex([]byte(strings.Join(all, "\n")))
 }
+
+// B4 is the legacy ("shake256:<hex>") module digest: SHAKE256 over the manifest of the module files together with
+// the v1 buf.yaml and buf.lock object data (when present) under those two names.
+func B4(files map[string][]byte, bufYAML, bufLock []byte) string {
+	all := map[string][]byte{}
+	for p, d := range ModuleFiles(files) {
+		all[p] = d
+	}
+	if bufYAML != nil {
+		all["buf.yaml"] = bufYAML
+	}
+	if bufLock != nil {
+		all["buf.lock"] = bufLock
+	}
+	return "shake256:" + shake256Hex([]byte(ManifestText(all)))
+}
